@@ -448,8 +448,141 @@ def a64_indexed_store(p: int, d2: int, pre: bool) -> bool:
     return verdict(found == expect, nontrivial=expect, sample=lambda: {"p": p, "d2": d2, "pre": pre, "dep": expect})
 
 
+
+# ---- sequences of pointer manipulations between store and load (abstract interpretation as oracle) -----
+# Each register's value is tracked as (register whose value at the time of the store it derives from,
+# constant added since) or None when it was overwritten by something untrackable.
+
+X86_SEQ = [  # (text, effect)  effect: ("add", reg, sign) uses the symbolic immediate; ("inc", reg, +-1); ("copy", dst, src); ("kill", reg); None
+    ("addq $1, %rsi", None),
+    ("addq $1, %rax", ("add", "rax", 1)),
+    ("subq $1, %rax", ("add", "rax", -1)),
+    ("movq %rax, %rcx", ("copy", "rcx", "rax")),
+    ("movq %rcx, %rdx", ("copy", "rdx", "rcx")),
+    ("movq %rdx, %rax", ("copy", "rax", "rdx")),
+    ("addq $1, %rcx", ("add", "rcx", 1)),
+    ("incq %rcx", ("inc", "rcx", 1)),
+    ("movq %rbx, %rax", ("copy", "rax", "rbx")),
+    ("movq (%r8), %rcx", ("kill", "rcx")),
+]
+A64_SEQ = [
+    ("add x9, x9, #1", None),
+    ("add x1, x1, #1", ("add", "x1", 1)),
+    ("sub x1, x1, #1", ("add", "x1", -1)),
+    ("mov x2, x1", ("copy", "x2", "x1")),
+    ("mov x3, x2", ("copy", "x3", "x2")),
+    ("mov x1, x3", ("copy", "x1", "x3")),
+    ("add x2, x2, #1", ("add", "x2", 1)),
+    ("add x2, x1, #1", ("copyadd", "x2", "x1")),
+    ("mov x1, x4", ("copy", "x1", "x4")),
+    ("ldr x2, [x8]", ("kill", "x2")),
+]
+
+
+def _apply(state, eff, imm):
+    if eff is None:
+        return
+    kind = eff[0]
+    if kind == "add":
+        if state.get(eff[1], (eff[1], 0)) is not None:
+            o, d = state.get(eff[1], (eff[1], 0))
+            state[eff[1]] = (o, d + eff[2] * imm)
+    elif kind == "inc":
+        if state.get(eff[1], (eff[1], 0)) is not None:
+            o, d = state.get(eff[1], (eff[1], 0))
+            state[eff[1]] = (o, d + eff[2])
+    elif kind == "copy":
+        state[eff[1]] = state.get(eff[2], (eff[2], 0))
+    elif kind == "copyadd":
+        src = state.get(eff[2], (eff[2], 0))
+        state[eff[1]] = None if src is None else (src[0], src[1] + imm)
+    elif kind == "kill":
+        state[eff[1]] = None
+
+
+def _seq(isa, menu, store_line, load_lines, base, ks, imms, d1, d2, which_load):
+    ker = [inst(isa, store_line, 1, disp=d1)]
+    state = {}
+    for k, imm in zip(ks, imms):
+        text, eff = menu[k]
+        ker.append(inst(isa, text, len(ker) + 1, imm=imm))
+        _apply(state, eff, imm)
+    line, reg = load_lines[which_load]
+    ker.append(inst(isa, line, len(ker) + 1, disp=d2))
+    e = run(isa, ker, 3, 2)
+    st = state.get(reg, (reg, 0))
+    expect = st is not None and st[0] == base and (d2 + st[1] - d1 == 0)
+    return check(e, 1, len(ker), expect, 3, 2), expect, [menu[k][0] for k in ks], line
+
+
+X86_LOADS = [("movq 8(%rax), %rdi", "rax"), ("movq 8(%rcx), %rdi", "rcx"), ("movq 8(%rdx), %rdi", "rdx"),
+             ("movq 8(%rax), %rax", "rax"), ("movq 8(%rcx), %rcx", "rcx")]          # the last two overwrite their own base (pointer chasing)
+A64_LOADS = [("ldr x7, [x1, #8]", "x1"), ("ldr x7, [x2, #8]", "x2"), ("ldr x7, [x3, #8]", "x3"),
+             ("ldr x1, [x1, #8]", "x1"), ("ldr x2, [x2, #8]", "x2")]
+
+
+def x86_seq2(k0: int, k1: int, i0: int, i1: int, d1: int, d2: int, ld: int) -> bool:
+    """
+    pre: 0 <= k0 < 10 and 0 <= k1 < 10 and 0 <= ld < 5
+    post: _
+    """
+    if skip(locals()):
+        return True
+    lo, hi = shard(100)
+    if not (lo <= k0 * 10 + k1 < hi):
+        return True
+    ok, expect, seq, line = _seq("x86", X86_SEQ, "movq %rsi, 8(%rax)", X86_LOADS, "rax", [pick(k0, 10), pick(k1, 10)], [i0, i1], d1, d2, pick(ld, 5))
+    return verdict(ok, nontrivial=expect, sample=lambda: {"between": seq, "imm": [i0, i1], "d1": d1, "d2": d2, "load": line, "dep": expect})
+
+
+def a64_seq2(k0: int, k1: int, i0: int, i1: int, d1: int, d2: int, ld: int) -> bool:
+    """
+    pre: 0 <= k0 < 10 and 0 <= k1 < 10 and 0 <= ld < 5
+    post: _
+    """
+    if skip(locals()):
+        return True
+    lo, hi = shard(100)
+    if not (lo <= k0 * 10 + k1 < hi):
+        return True
+    ok, expect, seq, line = _seq("aarch64", A64_SEQ, "str x5, [x1, #8]", A64_LOADS, "x1", [pick(k0, 10), pick(k1, 10)], [i0, i1], d1, d2, pick(ld, 5))
+    return verdict(ok, nontrivial=expect, sample=lambda: {"between": seq, "imm": [i0, i1], "d1": d1, "d2": d2, "load": line, "dep": expect})
+
+
+def x86_seq3(k0: int, k1: int, k2: int, i0: int, i1: int, i2: int, d1: int, d2: int, ld: int) -> bool:
+    """
+    pre: 0 <= k0 < 10 and 0 <= k1 < 10 and 0 <= k2 < 10 and 0 <= ld < 5
+    post: _
+    """
+    if skip(locals()):
+        return True
+    lo, hi = shard(100)
+    if not (lo <= k0 * 10 + k1 < hi):
+        return True
+    ok, expect, seq, line = _seq("x86", X86_SEQ, "movq %rsi, 8(%rax)", X86_LOADS, "rax", [pick(k0, 10), pick(k1, 10), pick(k2, 10)], [i0, i1, i2], d1, d2, pick(ld, 5))
+    return verdict(ok, nontrivial=expect, sample=lambda: {"between": seq, "imm": [i0, i1, i2], "d1": d1, "d2": d2, "load": line, "dep": expect})
+
+
+def a64_seq3(k0: int, k1: int, k2: int, i0: int, i1: int, i2: int, d1: int, d2: int, ld: int) -> bool:
+    """
+    pre: 0 <= k0 < 10 and 0 <= k1 < 10 and 0 <= k2 < 10 and 0 <= ld < 5
+    post: _
+    """
+    if skip(locals()):
+        return True
+    lo, hi = shard(100)
+    if not (lo <= k0 * 10 + k1 < hi):
+        return True
+    ok, expect, seq, line = _seq("aarch64", A64_SEQ, "str x5, [x1, #8]", A64_LOADS, "x1", [pick(k0, 10), pick(k1, 10), pick(k2, 10)], [i0, i1, i2], d1, d2, pick(ld, 5))
+    return verdict(ok, nontrivial=expect, sample=lambda: {"between": seq, "imm": [i0, i1, i2], "d1": d1, "d2": d2, "load": line, "dep": expect})
+
+
 _B = "displacements and immediates: unbounded symbolic ints; "
 CELLS = {
+    "x86_seq2": {"fn": x86_seq2, "bound": _B + "store d1(%rax); TWO instructions from a menu of 10 (add/sub $imm on the base, copies rax->rcx->rdx->rax, add/inc on a copy, copy from a foreign register, untrackable load into a copy); load d2 through rax, rcx or rdx, also loads that overwrite their own base (pointer chasing); oracle: abstract interpretation (origin register, constant)", "budget": {"quick": 170, "thorough": 600}, "shards": 20},
+    "a64_seq2": {"fn": a64_seq2, "bound": _B + "same on AArch64 (add/sub #imm, mov copies, add xd, xn, #imm as copy+bump)", "budget": {"quick": 170, "thorough": 600}, "shards": 20},
+    "x86_seq3": {"fn": x86_seq3, "tiers": ("thorough",), "bound": _B + "THREE instructions from the menu between store and load", "budget": {"thorough": 1500}, "shards": 50},
+    "a64_seq3": {"fn": a64_seq3, "tiers": ("thorough",), "bound": _B + "THREE instructions from the menu between store and load", "budget": {"thorough": 1500}, "shards": 50},
     "x86_base_disp": {"fn": x86_base_disp, "bound": _B + "store d1(%rax); one of {none, add/sub $imm, inc, dec on base, add/inc on unrelated regs}; load d2(%rax|%rbx); store latency, forwarding latency 0..20", "budget": {"quick": 150, "thorough": 600}, "shards": 8},
     "x86_nodisp": {"fn": x86_nodisp, "bound": _B + "one side without displacement", "budget": {"quick": 150, "thorough": 600}},
     "x86_index_scale": {"fn": x86_index_scale, "bound": _B + "d(%rax,%rsi,s): scales 1/2/4/8 on both sides, bumps on base or index, same/different index register", "budget": {"quick": 170, "thorough": 900}, "shards": 8},
